@@ -1960,6 +1960,13 @@ func (fr *frame) execSlice(x *ssa.Slice, st *State) {
 }
 
 func (fr *frame) execPanic(x *ssa.Panic, st *State) {
+	if fr.noSafety {
+		// nosafety: failures that depend on an invariant this contract does not prove are
+		// assumed away — that includes the code's own invariant-check panics
+		fr.c.assumed["nosafety: explicit panic in "+fr.name+" assumed unreachable: "+fr.c.prog.sourceLine(fr.c.prog.Fset.Position(x.Pos()))] = true
+		fr.assumeR("false")
+		return
+	}
 	// a panic is allowed only when licensed by the contract's panics clause
 	fr.oblige("safety", "panic", nil, fr.panicOK, "explicit panic reachable: "+fr.c.prog.sourceLine(fr.c.prog.Fset.Position(x.Pos())), x.Pos())
 	if fr.c.panicsWithSet {
